@@ -328,7 +328,7 @@ def obligations(tier, seed):
     for entry in (1, 2):
         for fname, offs in fields.items():
             for off in offs:
-                if q and not (off in (0, 11, 16, 17, 20) and entry == 1):
+                if q and entry != 1 and off not in (9, 16, 17, 20):
                     continue
                 obs.append(ob(f"C14.byte/entry={entry}/{fname}@{off}", "h_byte", [f"entry == {entry}", f"off == {off}"],
                               "one byte of the entry", "all 256 values of that byte (realised at construct's C boundary)", stubs=["stub SAT"]))
